@@ -69,8 +69,8 @@ def gen_cases(tier, seed):
                     yield {"w": "dense", "shape": shape, "groups": groups, "kind": kind, "shuffle_groups": bool(rng.integers(0, 2)),
                            "cseed": int(seed) * 141650939 % (2 ** 31) + next(cs)}
                 # value classes: stored element types whose own arithmetic saturates / wraps (masks, narrow integers), and infinite entries
-                for vals in ("bool", "int8", "uint8", "int32", "inf", "-inf", "nan", "inf-mixed"):
-                    for kind in ("generic", "symmetric"):
+                for vals in ("bool", "int8", "uint8", "int32", "inf", "-inf", "nan", "inf-mixed", "int64-beyond-2^53"):
+                    for kind in ("generic", "symmetric") + (("almost",) if vals == "int64-beyond-2^53" else ()):
                         yield {"w": "dense", "shape": shape, "groups": groups, "kind": kind, "shuffle_groups": bool(rng.integers(0, 2)), "vals": vals,
                                "cseed": int(seed) * 141650939 % (2 ** 31) + next(cs)}
     # three or more groups of two or more modes each (order >= 6): the permutation table of the older algorithm is a product over the
@@ -206,6 +206,18 @@ def run_case(case, ctx):
         Astored = np.clip(np.round(np.abs(A) * 90.0), 0, 255).astype(np.uint8)
     elif vals == "int32":
         Astored = np.round(A * 6.0e8).clip(-2 ** 31 + 1, 2 ** 31 - 1).astype(np.int32)
+    elif vals == "int64-beyond-2^53":
+        # 64-bit integers beyond the range in which doubles are exact: entries that differ by 1 are the same double
+        base = np.round(A * 4.0).astype(np.int64)
+        Astored = (base + np.int64(2 ** 53 + 2)) if case["kind"] != "almost" else None
+        if Astored is None:
+            sym_ = np.zeros(shape, dtype=np.int64) + np.int64(2 ** 53)       # (2**53 + 1 is the same double as 2**53)
+            g_ = next((g2 for g2 in groups if len(g2) >= 2 and shape[g2[0]] >= 2), None)
+            Astored = sym_.copy()
+            if g_ is not None:
+                pos = [0] * N
+                pos[g_[1]] = 1
+                Astored[tuple(pos)] += 1                 # one entry off by one from its permuted partner
     elif vals in ("inf", "-inf"):
         # an infinite value on a whole orbit of positions (every within-group permutation of one index), so symmetry is not disturbed
         Astored = A.copy()
@@ -233,6 +245,9 @@ def run_case(case, ctx):
     ctx.feat(vals=vals)
     nonnum = vals in ("nan", "inf-mixed")
     is_sym = refops.is_symmetric(A, groups) and not nonnum
+    exact_ints = vals == "int64-beyond-2^53"
+    if exact_ints:
+        is_sym = refops.is_symmetric(np.asarray(Astored), groups)       # decided on the integers themselves
     full = (sorted(m for g in groups for m in g) == list(range(N))) and len(groups) == 1
     ctx.feat(N=N, ngroups=len(groups), glen=len(groups[0]), full_group=full, kind=case["kind"], proper_subgroup=not full)
     garg = np.array(groups[0]) if len(groups) == 1 else np.array(groups)
@@ -240,7 +255,7 @@ def run_case(case, ctx):
     with np.errstate(invalid="ignore"):
         want = refops.symmetrize(A, groups)
     results = {}
-    for ver in (None, 1):
+    for ver in (None, 1) if not exact_ints else ():
         op = "tensor.symmetrize"
         r = ctx.call(op, T.symmetrize, garg.copy(), **({} if ver is None else {"version": ver}))
         if not r.ok:
@@ -255,7 +270,7 @@ def run_case(case, ctx):
             ctx.check(close(S, A, tol=1e-14), op, "CHANGED-SYMMETRIC", "an already symmetric tensor changed its value", version=str(ver))
         # result passes the symmetry test, symmetrising again changes nothing
         r2 = ctx.call("tensor.issymmetric", r.value.issymmetric, garg.copy())
-        if r2.ok and ver is None and not nonnum:
+        if r2.ok and not nonnum:
             ctx.check(bool(r2.value) is True, "tensor.issymmetric", "RESULT-NOT-SYMMETRIC", "the symmetrised tensor fails the symmetry test", version=str(ver))
         r3 = ctx.call(op, r.value.symmetrize, garg.copy(), **({} if ver is None else {"version": ver}))
         if r3.ok:
